@@ -38,9 +38,9 @@ CHECKS = {
                      'return from preemptive defeat functions): faults are raised exactly when the source-level predicate holds, before the faulting operation\'s effects (markers), and terminally.',
                 note=TB),
     'C08': dict(cat='model_checking', ref='5 C08', engine='SVM',
-                technique='symbolic execution of the emitted assembly (z3) with (fp, ap) equality monitors at loop heads/exits, call returns, stop-handler entry and function return',
+                technique='symbolic execution of the emitted assembly (z3) with (fp, ap) equality monitors at loop heads/exits, call returns, stop-handler entry and function return; VM vs reference-interpreter equivalence (z3) on the scope family for early release',
                 text='On every path of the scope family (arrays x nested blocks x exit routes x symbolic trip counts x calls) the monitors find ap at loop heads/exits equal to ap at loop entry, (fp, ap) after a call '
-                     'equal to before it, the stop handler restoring (fp, ap) of try entry, and ap at return equal to ap at entry. "Never released early" is covered by C04\'s tight-stack differential.',
+                     'equal to before it, the stop handler restoring (fp, ap) of try entry, and ap at return equal to ap at entry. "Never released early": the scope family (incl. return expressions that allocate while a local array is live) is also decided as VM = reference interpreter for all inputs, since an array released too soon is overwritten by the next allocation; C04\'s tight-stack differential covers the same from the other side.',
                 note=TB + ' Scope boundaries are recognised through the generator\'s label vocabulary (loop_N, break_N, continue_N, end_call_N).'),
     'C09': dict(cat='translation_validation', ref='5 C09', engine='SVM',
                 technique='symbolic execution of emitted assembly (z3 bit-vectors, both operands over the whole word) against bit-vector operator specifications written in the harness',
@@ -49,11 +49,11 @@ CHECKS = {
                 note=TB),
     'C15': dict(cat='translation_validation', ref='5 C15', engine='SVM',
                 technique='differential symbolic execution: the unchecked build is run under the path condition of every fault-free checked path; z3 decides event equality',
-                text='For every template, every fault-free path of the checked build is re-executed on the unchecked build under that path\'s condition; events must agree and no halt / unspecified behaviour may be reachable.',
+                text='For every template, every fault-free path of the checked build is re-executed on the unchecked build under that path\'s condition; events must agree and no halt / unspecified behaviour may be reachable (a path that stops at an access with an unenumerable address is decided by replaying solver models of its inputs on both builds).',
                 note=TB),
     'C16': dict(cat='model_checking', ref='5 C16', engine='SVM+RI',
-                technique='symbolic execution (z3) with a function-extent fall-through monitor; VM vs reference interpreter for returned values; dropped-code reachability in the reference interpreter',
-                text='Control-flow skeleton family: on no path (committed or speculative) does the pc move from one function\'s extent into the next without a taken jump; non-empty functions return the value the '
+                technique='symbolic execution (z3) with a function-extent fall-through monitor and a return-to-caller monitor; VM vs reference interpreter for returned values; dropped-code reachability in the reference interpreter',
+                text='Control-flow skeleton family: on no path (committed or speculative) does the pc move from one function\'s extent into the next without a taken jump, and every jump through a register goes to the instruction after the call that created the activation (keyed by the callee frame pointer); non-empty functions return the value the '
                      'reference interpreter computes; a block the compiler truncated never completes its last kept statement normally.',
                 note=TB + ' Over-rejection ("Missing return statement") is allowed by the property and counted separately.'),
 
@@ -65,9 +65,9 @@ CHECKS = {
                 note='Token lists stand for source text (lexing is C12). The induction over nesting depth is an argument in DESIGN.md, not a solver result. Trusted: CrossHair/z3, the README table as transcribed in ch/c06_ctx.py.'),
     'C07': dict(cat='proof', ref='5 C07', engine='CH',
                 technique='CrossHair symbolic execution (z3) of the typechecker methods on AST objects built from symbolic selectors against a transcription of the README typing rules; rule x position tables enumerated through parse+evaluate',
-                text='Coercion lattice, explicit-cast lattice, array-literal inference and const flexibility, nested arrays and overload resolution (exact match first, else first declared coercible; <= 3 overloads, arity <= 2) '
+                text='Coercion lattice, explicit-cast lattice, array-literal inference and const flexibility, nested arrays and overload resolution (exact match first, else first declared coercible; <= 3 overloads, arity <= 2; two calls in a row against one shared program environment: binding is independent of history) '
                      'are confirmed over all paths; every (type x expression kind) in declaration / assignment / cast / argument / return / condition / index position, ~90 rule cases and overload layouts with the caller before, '
-                     'between and after the overloads are compared with an independent transcription (hv/tcspec.py), the binding being read from the checked tree.',
+                     'between and after the overloads, and ordered pairs of calls of one overloaded name, are compared with an independent transcription (hv/tcspec.py), the binding being read from the checked tree.',
                 note='Unit level: one statement / one call per obligation; lifting to whole programs relies on the checker being compositional (argument). Trusted: CrossHair/z3; hv/tcspec.py as the reading of the README.'),
     'C10': dict(cat='other', ref='5 C10', engine='CH',
                 technique='CrossHair (z3) on compiler options and on the parser over short token lists; complete enumeration of the typechecker-to-generator interface tables with the strict assembler as acceptance oracle',
@@ -77,7 +77,7 @@ CHECKS = {
                 note='Auxiliary concrete parts are reported separately in the evidence. Trusted: CrossHair/z3, hv/asm.py as the assembler.'),
     'C11': dict(cat='proof', ref='5 C11', engine='CH',
                 technique='CrossHair symbolic execution (z3) of the real ps_expr on token lists with symbolic operator selectors vs an independent precedence-climbing parser; exhaustive enumeration of all operator triples',
-                text='All 14x14 operator pairs (plain, with unary prefixes, unary before a cast; postfix/cast variants and level-representative triples and round trips in the thorough tier) parse to the tree of an independent '
+                text='All 14x14 operator pairs (plain, with unary prefixes, unary before a cast; postfix/cast variants and level-representative triples and round trips in the thorough tier), every kind of primary expression (identifier, int / char / string / bool literal, parenthesised, array literal, call) with every postfix form, and same-level chains of up to 14 operands (left-deep spine) parse to the tree of an independent '
                      'precedence-climbing parser written from the README table; all 14^3 triples x 5 parenthesisations x 5 tree shapes and all pair variants are enumerated completely; depth-6 trees are printed with minimal parentheses '
                      'and re-parsed through the real lexer.',
                 note='Grouping decisions of an operator-precedence grammar involve two adjacent operators (argument), which is why pairs and triples are the relevant scope. Trusted: CrossHair/z3; the README table in ch/c11_prec.py.'),
